@@ -3,6 +3,7 @@ Core-only so that it links as a `lean_exe`. -/
 import OsmoVerif.Model.DrvNum
 import OsmoVerif.Model.DrvMath
 import OsmoVerif.Model.DrvMint
+import OsmoVerif.Model.DrvDet
 import OsmoVerif.Model.DrvSuperfluid
 import OsmoVerif.Model.DrvGamm4
 import OsmoVerif.Model.DrvIncentives
@@ -53,6 +54,7 @@ def step (st : St) (line : String) : St × String :=
   | "incentives" :: op :: args => let (x, o) := Incentives.stepIncentives st.incentives op args; ({ st with incentives := x }, o)
   | "gammmath" :: op :: args => (st, GammMath.stepGammMath op args)
   | "superfluid" :: op :: args => let (x, o) := Superfluid.stepSuperfluid st.superfluid op args; ({ st with superfluid := x }, o)
+  | "det" :: op :: args => (st, Det.stepDet op args)
   | "mint" :: op :: args => let (m, o) := Mint.stepMint st.mint op args; ({ st with mint := m }, o)
   | _ => (st, "bad-op")
 
